@@ -342,7 +342,7 @@ def _parse_multiplier(mult: str, line_i: int) -> Number:
             return decimal.Decimal(mult)
         elif mult.isdigit():
             return int(mult)
-    except ValueError as err:
+    except (ValueError, ArithmeticError) as err:
         inner_err = err
     parse_err = STVParseError(f'invalid vote weight multiplier: {mult!r}'
                               f'on ballot line {line_i}')
@@ -361,13 +361,13 @@ def _load_ordered_votes(lines: Iterable[Tuple[Number, List[str]]],
         mult, items = line_cont
         cand_order = []
         for item_i, item in enumerate(items):
-            if item.isdigit():
+            if item.isdecimal() and item_i < len(candidates):
                 cand_order.append((candidates[item_i], int(item)))
             elif item != '-':
                 raise STVParseError(f'invalid ordered vote item: {item!r}'
                                     f'on ballot line {line_i}')
         cand_order.sort(key=operator.itemgetter(1))
-        vote, indices = zip(*cand_order)
+        vote, indices = zip(*cand_order) if cand_order else ((), ())
         if indices != tuple(range(1, len(indices)+1)):
             raise STVParseError(f'invalid ranking indices: {indices!r}'
                                 f' on ballot line {line_i}')
